@@ -187,7 +187,7 @@ static int Int_Show(var self, var output, int pos) {
 }
 
 static int Int_Look(var self, var input, int pos) {
-  return scan_from(input, pos, "%li", self);
+  return scan_from(input, pos, "%ld", self);
 }
 
 var Int = Cello(Int,
